@@ -81,12 +81,7 @@ Theorem C14_cycle_completed_once : forall auto pa bufsize occ m rem c x log,
     turn_entries rem (it_log it) = Some rem' /\
     (ev_cycle_completed (reported it) = true <-> (sched_ran it = true /\ rem' = [])) /\
     cycle_inv occ (it_m it) (if ev_cycle_completed (reported it) then occ else rem').
-Proof.
-  intros auto pa bufsize occ m rem c x log HI H it.
-  destruct (cycle_step auto pa bufsize occ m rem c x log HI H) as (rem2 & Hm & HI').
-  destruct (cycle_item_spec _ _ _ _ Hm) as (rem' & Ht & Hiff & ->).
-  exists rem'. split; [exact Ht|]. split; [exact Hiff|exact HI'].
-Qed.
+Proof. exact cycle_completed_once_step. Qed.
 Print Assumptions C14_cycle_completed_once.
 
 (* a turn is at most one request plus its retransmissions: all transmissions of one turn carry the same
